@@ -36,6 +36,24 @@ def _mask_inconclusive(ctx):
     ctx.run_impl, ctx.run_model = run_impl, run_model
 
 
+def _cheap_minimise(ctx):
+    """Replaying a history costs real time (its ticks, and 5 s for every call that hangs): a history whose failure is a
+    timeout or hang is reported as it is, every other one is minimised with a small budget."""
+    minimise0 = ctx._minimise
+
+    def minimise(area, driver, name, hist, canon, extra_env=None, budget=80):
+        if area != "burst":
+            return minimise0(area, driver, name, hist, canon, extra_env, budget)
+        if len(hist) <= 6:
+            return hist
+        r = ctx._mismatch(area, driver, name, hist, canon, extra_env)
+        if r is None or any(("timeout" in o or "hang" in o or "never-answered" in o) for o in r[1]):
+            return hist
+        return minimise0(area, driver, name, hist, canon, extra_env, 12)
+
+    ctx._minimise = minimise
+
+
 def _stress_corpus(ctx):
     """corpus/C16/stress.*.ops: fixed configurations (the one in which the unrepaired Close hung) run first"""
     lines = ctx.corpus("stress")
@@ -78,6 +96,7 @@ def run(ctx):
     ctx.lean(props=["Props.C16"], drivers=["drv_c16"])
     ctx.harness("./cmd/c16", overlay=OVERLAY)
     _mask_inconclusive(ctx)
+    _cheap_minimise(ctx)
     period = "200" if ctx.tier == "quick" else "120"
     ctx.diff(area="burst", driver="drv_c16", n={"quick": 40000, "thorough": 3000000}, stateful=True,
              trivial=lambda l, o: o == "inconclusive",
